@@ -48,6 +48,7 @@ type Check struct {
 	Omitted   []string
 	excUsed   map[string]bool
 	SkipRules map[string]bool // rules of a borrowed group that this property does not rest on
+	OnlyRules map[string]bool // when set, only these rules of a borrowed group are recorded
 }
 
 func NewCheck(p *Prog, prop string) *Check {
@@ -56,7 +57,7 @@ func NewCheck(p *Prog, prop string) *Check {
 
 func (c *Check) add(o *Obligation) *Obligation {
 	o.Variant = c.P.Variant.Name
-	if c.SkipRules[o.Rule] {
+	if c.SkipRules[o.Rule] || c.OnlyRules != nil && !c.OnlyRules[o.Rule] {
 		// a shared group is borrowed by a property that does not rest on this rule
 		return o
 	}
